@@ -81,6 +81,8 @@ func gen(r *harn.Rng, tier string) interface{} {
 			o.Ctx = "pre"
 			if r.Bool(0.3) {
 				o.Ctx = "precause" // cancelled with a cause: the error is still the context's error (ctx.Err())
+			} else if r.Bool(0.3) {
+				o.Ctx = "prepast" // cancelled before its deadline and used after it: ctx.Err() stays Canceled
 			}
 		case 1, 2, 3:
 			o.Ctx, o.CtxNs = "cancel", gaps[r.Intn(len(gaps))]
@@ -214,6 +216,11 @@ func run(env *simrt.Env, sci interface{}) {
 		var ctx context.Context
 		var cancel context.CancelFunc
 		switch spec.Ctx {
+		case "prepast":
+			ctx, cancel = context.WithTimeout(context.Background(), time.Millisecond)
+			cancel()
+			env.Sleep(2 * time.Millisecond)
+			res.preDone = true
 		case "precause":
 			var cc context.CancelCauseFunc
 			ctx, cc = context.WithCancelCause(context.Background())
